@@ -598,6 +598,51 @@ func ruleCancelArmExits(c *Ctx, r *R) {
 			}
 		}
 	}
+	// the cancellable wait written with a module helper (chans.SendContext(bgCtx, c, item) != nil → leave): the edge on which
+	// the helper reports the context's end must not lead back into the loop
+	for g := range seen {
+		instrs(g, func(b *ssa.BasicBlock, i int, in ssa.Instruction) {
+			call, ok := in.(*ssa.Call)
+			if !ok || !reaches(b, b) {
+				return
+			}
+			cal := staticCallee(&call.Call)
+			if cal == nil || !ctxBlockingHelper(c, origin(cal)) {
+				return
+			}
+			var errV ssa.Value = call
+			if tup, isT := call.Type().(*types.Tuple); isT {
+				errV = nil
+				for _, ref := range refsOf(call) {
+					if ex, ok := ref.(*ssa.Extract); ok && ex.Index == tup.Len()-1 {
+						errV = ex
+					}
+				}
+			}
+			if errV == nil {
+				return
+			}
+			for _, ref := range refsOf(errV) {
+				bin, ok := ref.(*ssa.BinOp)
+				if !ok || (bin.Op != token.NEQ && bin.Op != token.EQL) || !(isNilConst(bin.X) || isNilConst(bin.Y)) {
+					continue
+				}
+				for _, r2 := range refsOf(bin) {
+					iff, ok := r2.(*ssa.If)
+					if !ok {
+						continue
+					}
+					failIdx := 0 // successor taken when err != nil
+					if bin.Op == token.EQL {
+						failIdx = 1
+					}
+					fb := iff.Block().Succs[failIdx]
+					n++
+					r.ok(!reaches(fb, b) && fb != b, c.nameOf(g)+"|cancel-arm#"+itoa(n), call.Pos(), "the path taken when the background context ended (the helper returned an error) leads back into the loop: the goroutine spins and Close never returns")
+				}
+			}
+		})
+	}
 	if n == 0 {
 		r.undecided("stream.BatchFunc|cancel-arm", bi.fn.Pos(), "no cancellable select inside a loop found")
 	}
